@@ -273,4 +273,50 @@ theorem default_delay_le_5s (ops : List Op) :
   have hall : ∀ x ∈ defaultT.delays, 0 ≤ x ∧ x ≤ 5000000000 := by decide
   exact hall d hmem
 
+/-! ### no stuck level (global form of the idle reset) -/
+
+/-- a raised level is always covered by an armed idle timer -/
+def Covered (t : T) : Prop := t.hasTimer = true ∧ (0 < t.level → t.deadline ≠ none)
+
+theorem apply_covered (t : T) (op : Op) (h : Covered t) : Covered (apply t op) := by
+  obtain ⟨ht, hd⟩ := h
+  cases op with
+  | signal n =>
+    simp only [apply, signal, touch]
+    split <;> simp_all [Covered]
+  | release n =>
+    simp only [apply, release, touch]
+    simp_all [Covered]
+  | reset => simp [apply, reset, Covered, ht]
+  | fire n =>
+    simp only [apply, fire]
+    split
+    · simp [reset, Covered, ht]
+    · exact ⟨ht, hd⟩
+  | staleFire => simp [apply, reset, Covered, ht]
+
+/-- **No stuck level.** With an idle timeout configured, in EVERY reachable state (any table, rate,
+any sequence of Signal/Release/Reset/timer steps incl. the stale callback, at any times) a level
+above zero has an armed idle timer: there is always a pending deadline after which the timer step
+returns the level to zero - the throttle cannot stay raised forever without further calls. -/
+theorem raised_level_has_armed_timer (ds : List Int) (r i : Int) (hi : 0 < i) (ops : List Op) :
+    Covered (run (new ds r i) ops) := by
+  have key : ∀ (ops : List Op) (t : T), InRange t → Covered t → Covered (run t ops) := by
+    intro ops
+    induction ops with
+    | nil => intro t _ h; exact h
+    | cons op ops ih =>
+      intro t hr hc
+      exact ih _ (apply_inRange t op hr) (apply_covered t op hc)
+  refine key ops _ (new_inRange ds r i) ?_
+  simp [Covered, new, hi]
+
+/-- and that pending deadline does fire: at or after it the timer step zeroes the level -/
+theorem armed_timer_fires (t : T) (d now : Nat) (h : t.deadline = some d) (hle : d ≤ now) :
+    (fire t now).level = 0 ∧ (fire t now).deadline = none := by
+  simp [fire, fireEnabled, h, hle, reset]
+
+example : (run (new [0, 5, 9] 2 50) [.signal 0, .signal 1, .release 2, .signal 3]).deadline = some 53 ∧
+    (run (new [0, 5, 9] 2 50) [.signal 0, .signal 1, .release 2, .signal 3]).level = 1 := by decide
+
 end C36
